@@ -1057,6 +1057,9 @@ EXTRACTORS["C09"] = EXTRACTORS["C09"] + [GEN_SRC[n] for n in ("SrcMyersSimpleBes
 # genlong: the constructors (`new` / `new_ambig` of simple.rs and long.rs, `MyersBuilder`)
 GEN_SRC.update({n: gen_src(n) for n in ("SrcMyersSimpleNew", "SrcMyersLongCtor", "SrcMyersBuilder")})
 EXTRACTORS["C09"] = EXTRACTORS["C09"] + [GEN_SRC[n] for n in ("SrcMyersSimpleNew", "SrcMyersLongCtor", "SrcMyersBuilder")]
+# genlong: C10 — the cursor moves of the single-word traceback handler; Thm/C10.lean imports RbV.Thm.GenSrcMyersTb and restates
+GEN_SRC.update({n: gen_src(n) for n in ("SrcMyersTbState", "SrcMyersTbShort")})
+EXTRACTORS["C10"] = EXTRACTORS["C10"] + [GEN_SRC[n] for n in ("SrcMyersTbState", "SrcMyersTbShort")]
 
 
 def main():
